@@ -627,43 +627,52 @@ func ruleCAPACITY(p *Program, rep *Report) {
 			}
 		}
 	}
-	// the option is only stored from makeTxAllocState's parameter, which newTx feeds from TxOptions.EnableOverflowArea
+	// the option is only ever computed from TxOptions.EnableOverflowArea (or a constant): backward data slice of
+	// every value stored into it, parameters followed to every call site
 	enable := p.FieldVar("txfile", "TxOptions", "EnableOverflowArea")
-	mk := p.Method("txfile", "allocator", "makeTxAllocState")
-	newTx := p.Func("txfile", "newTx")
+	all := map[*ssa.Function]bool{}
 	for _, fn := range p.SrcFuncs() {
+		all[fn] = true
+	}
+	nst := 0
+	for _, fn := range p.SrcFuncs() {
+		if fnPkgPath(fn) != modPath {
+			continue
+		}
 		for _, b := range fn.Blocks {
 			for _, ins := range b.Instrs {
 				st, ok := ins.(*ssa.Store)
 				if !ok || addrField(st.Addr) != v.fOverflowEnabled {
 					continue
 				}
+				nst++
 				key := funcName(fn) + "|overflowAreaEnabled="
-				if par, ok := st.Val.(*ssa.Parameter); ok && fn == mk {
-					_ = par
-					rep.OK("OVERFLOW-GATE", key, p.InstrPos(ins), "stored from makeTxAllocState's parameter")
-				} else {
-					rep.Bad("OVERFLOW-GATE", key, p.InstrPos(ins), "overflowAreaEnabled stored from something other than the transaction option")
+				sl := &slicer{p: p, fields: map[*types.Var]bool{}, seen: map[sliceKey]bool{}, dataOnly: true, within: all}
+				sl.walk(st.Val, 0, nil, 0)
+				var foreign []string
+				for f := range sl.fields {
+					if f != enable && f != v.fOverflowEnabled {
+						foreign = append(foreign, fieldOwner(p, f)+"."+f.Name())
+					}
+				}
+				sort.Strings(foreign)
+				switch {
+				case len(foreign) > 0:
+					rep.Bad("OVERFLOW-GATE", key, p.InstrPos(ins), "overflowAreaEnabled is computed from something other than the transaction option EnableOverflowArea: "+strings.Join(foreign, ", "))
+				case sl.fields[enable]:
+					rep.OK("OVERFLOW-GATE", key, p.InstrPos(ins), "computed from TxOptions.EnableOverflowArea only")
+				default:
+					if bv, isC := constBoolOf(st.Val); isC && !bv {
+						rep.OK("OVERFLOW-GATE", key, p.InstrPos(ins), "constant false")
+					} else {
+						rep.Bad("OVERFLOW-GATE", key, p.InstrPos(ins), "overflowAreaEnabled is set without reference to the transaction option EnableOverflowArea (a transaction could use the overflow area although it did not ask for it)")
+					}
 				}
 			}
 		}
 	}
-	for _, c := range callsIn(newTx, func(cal *ssa.Function, _ ssa.CallInstruction) bool { return cal == mk }) {
-		a := c.Common().Args[1]
-		key := "txfile.newTx|makeTxAllocState-arg"
-		if loadedField(a) == enable {
-			rep.OK("OVERFLOW-GATE", key, p.InstrPos(c), "TxOptions.EnableOverflowArea")
-		} else {
-			rep.Bad("OVERFLOW-GATE", key, p.InstrPos(c), "makeTxAllocState is not fed from TxOptions.EnableOverflowArea")
-		}
-	}
-	for _, fn := range p.SrcFuncs() {
-		if fn == newTx {
-			continue
-		}
-		for _, c := range callsIn(fn, func(cal *ssa.Function, _ ssa.CallInstruction) bool { return cal == mk }) {
-			rep.Bad("OVERFLOW-GATE", funcName(fn)+"|makeTxAllocState", p.InstrPos(c), "makeTxAllocState called outside newTx")
-		}
+	if nst == 0 {
+		rep.Unknown("OVERFLOW-GATE", "overflowAreaEnabled=", "", "no store to txAllocOptions.overflowAreaEnabled found (anchor lost)")
 	}
 }
 
@@ -709,7 +718,8 @@ func ruleUNDOJOURNAL(p *Program, rep *Report) {
 				for _, bb := range scan {
 					for _, i2 := range bb.Instrs {
 						if c, ok := i2.(ssa.CallInstruction); ok && len(c.Common().Args) > 0 {
-							if fa, ok := c.Common().Args[0].(*ssa.FieldAddr); ok && journalFields[fieldOfAddr(fa)] {
+							// journal.Add(...): the journal may be handed to a shared helper by its callers
+							if addrIsFieldEverywhere(p, c.Common().Args[0], func(f *types.Var) bool { return journalFields[f] }, 0) {
 								journaled = true
 							}
 						}
@@ -1151,7 +1161,7 @@ func (v *allocVocab) journalsValue(val ssa.Value, depth int) bool {
 			}
 			// derived.EachPage(area.new.Add) — a bound Add of a journal set handed to a call on the derived value
 			for _, a := range args {
-				if mc, ok := a.(*ssa.MakeClosure); ok {
+				if mc, ok := resolveFuncValue(a, 0).(*ssa.MakeClosure); ok {
 					if g, ok := mc.Fn.(*ssa.Function); ok && strings.HasSuffix(g.Name(), "Add$bound") && len(mc.Bindings) == 1 && isJournalAddr(mc.Bindings[0]) {
 						return true
 					}
@@ -1188,4 +1198,97 @@ func (v *allocVocab) allocationJournaled(c ssa.CallInstruction, depth int) bool 
 		}
 	}
 	return false
+}
+
+// addrIsFieldEverywhere: x is the address of a struct field satisfying pred — directly, or x is a parameter
+// and at every call site of its function the argument is (transitively) such an address.
+func addrIsFieldEverywhere(p *Program, x ssa.Value, pred func(*types.Var) bool, depth int) bool {
+	switch a := x.(type) {
+	case *ssa.FieldAddr:
+		return pred(fieldOfAddr(a))
+	case *ssa.Parameter:
+		if depth > 3 {
+			return false
+		}
+		pi := paramIndex(a.Parent(), a)
+		sites := p.callIndex().sites[a.Parent()]
+		if pi < 0 || len(sites) == 0 {
+			return false
+		}
+		for _, site := range sites {
+			if pi >= len(site.Common().Args) || !addrIsFieldEverywhere(p, site.Common().Args[pi], pred, depth+1) {
+				return false
+			}
+		}
+		return true
+	}
+	return false
+}
+
+// resolveFuncValue follows a function-typed value to the closure / function it denotes: a captured variable
+// (FreeVar) is resolved through the MakeClosure that created the enclosing closure, a spilled local through
+// its single store.
+func resolveFuncValue(v ssa.Value, depth int) ssa.Value {
+	if depth > 4 || v == nil {
+		return v
+	}
+	switch x := v.(type) {
+	case *ssa.FreeVar:
+		fn := x.Parent()
+		outer := fn.Parent()
+		if outer == nil {
+			return v
+		}
+		idx := -1
+		for i, fv := range fn.FreeVars {
+			if fv == x {
+				idx = i
+			}
+		}
+		for _, b := range outer.Blocks {
+			for _, ins := range b.Instrs {
+				if mc, ok := ins.(*ssa.MakeClosure); ok && mc.Fn == ssa.Value(fn) && idx >= 0 && idx < len(mc.Bindings) {
+					return resolveFuncValue(mc.Bindings[idx], depth+1)
+				}
+			}
+		}
+	case *ssa.UnOp:
+		if x.Op == token.MUL {
+			switch a := x.X.(type) {
+			case *ssa.Alloc:
+				var val ssa.Value
+				n := 0
+				if a.Referrers() != nil {
+					for _, r := range *a.Referrers() {
+						if st, ok := r.(*ssa.Store); ok && st.Addr == ssa.Value(a) {
+							val = st.Val
+							n++
+						}
+					}
+				}
+				if n == 1 {
+					return resolveFuncValue(val, depth+1)
+				}
+			case *ssa.FreeVar:
+				// variable captured by reference: *fv
+				r := resolveFuncValue(a, depth+1)
+				if al, ok := r.(*ssa.Alloc); ok {
+					var val ssa.Value
+					n := 0
+					if al.Referrers() != nil {
+						for _, rr := range *al.Referrers() {
+							if st, ok := rr.(*ssa.Store); ok && st.Addr == ssa.Value(al) {
+								val = st.Val
+								n++
+							}
+						}
+					}
+					if n == 1 {
+						return resolveFuncValue(val, depth+1)
+					}
+				}
+			}
+		}
+	}
+	return v
 }
